@@ -10,6 +10,8 @@ package main
 //	lex.jsonr <hints> <prs> <jval>   → ok <item> | err | panic …
 //	#lex.xmlr-raw <hints> <hexdoc>   impl-only: documents the independent parser does not accept as one document
 //	#lex.jsonr-raw <hints> <hexdoc>
+//	#lex.xmlr-nonascii-space / #lex.jsonr-nonascii-space <hints> <hexdoc>   impl-only: mask texts with non-ASCII
+//	                                 Unicode white space (outside the registry model); all impl-side oracles run
 //
 // The writers are tied to the model THROUGH the independent parsers (encoding/xml token walk, encoding/json
 // token walk with UseNumber): the impl answer of a writer line is the neutral rendering of the parsed output.
@@ -27,6 +29,7 @@ import (
 	"strconv"
 	"strings"
 	"time"
+	"unicode"
 
 	kmip "github.com/ovh/kmip-go"
 	"github.com/ovh/kmip-go/ttlv"
@@ -40,20 +43,20 @@ func init() {
 	register(&Engine{
 		Name: "lex",
 		Rule: "generic TTLV trees from the seeded structure-aware generator (wide, deep, big integers up to 4096 bits; XML-/JSON-representable text, dates in years 1..9999), a share of them decorated with enumeration / bit-mask nodes written through Encoder.Enum(enumtag,…) / Encoder.Bitmask(masktag,…) with registered and unregistered tags and values, plus a hand-written boundary list for every scalar kind: written by the real XML and JSON writers, parsed by encoding/xml / encoding/json token walks into a neutral element tree (writer lines); reader lines = those documents (with the typed caller's hints and with the generic decoder), a hand-enumerated list of alternative lexical forms of every type and of malformed element structures (duplicate / missing attributes and members, tag forms, unread structure children at several depths), and lexical mutations of the library's documents; documents the independent parser rejects are impl-only (no-panic oracle). distinct = distinct protocol line; nontrivial = tree with >1 node, an annotated node or a boundary value; every reader document",
-		Run:  runLex,
+		Run:  lexRun,
 	})
 }
 
 // ---- annotated trees ------------------------------------------------------------------------------------
 
-// xitem mirrors tree.Item with the annotations of the <xitem> syntax: an Integer written through
+// lexItem mirrors tree.Item with the annotations of the <xitem> syntax: an Integer written through
 // Encoder.Bitmask(ann, tag, v) (mask), an Enumeration written through Encoder.Enum(ann, tag, v).
-type xitem struct {
+type lexItem struct {
 	kind     tree.Kind
 	tag      int
 	mask     bool
 	ann      int
-	children []*xitem
+	children []*lexItem
 	i        int64
 	big      *big.Int
 	b        bool
@@ -61,13 +64,13 @@ type xitem struct {
 	tm       *time.Time // the decoder's own value of a date (nil: time.Unix(i, 0))
 }
 
-func (x *xitem) render() string {
+func (x *lexItem) render() string {
 	var sb strings.Builder
 	x.renderTo(&sb)
 	return sb.String()
 }
 
-func (x *xitem) renderTo(sb *strings.Builder) {
+func (x *lexItem) renderTo(sb *strings.Builder) {
 	switch {
 	case x.kind == tree.KStruct:
 		fmt.Fprintf(sb, "(S %d", x.tag)
@@ -112,8 +115,8 @@ func lexUnhex(s string) (string, error) {
 	return string(b), err
 }
 
-func parseXItem(s string) (*xitem, error) {
-	x, rest, err := parseXItemToks(lexTokens(s))
+func lexParseItem(s string) (*lexItem, error) {
+	x, rest, err := lexParseItemToks(lexTokens(s))
 	if err != nil {
 		return nil, err
 	}
@@ -123,7 +126,7 @@ func parseXItem(s string) (*xitem, error) {
 	return x, nil
 }
 
-func parseXItemToks(t []string) (*xitem, []string, error) {
+func lexParseItemToks(t []string) (*lexItem, []string, error) {
 	if len(t) < 4 || t[0] != "(" {
 		return nil, nil, fmt.Errorf("syntax")
 	}
@@ -132,13 +135,13 @@ func parseXItemToks(t []string) (*xitem, []string, error) {
 	if err != nil {
 		return nil, nil, err
 	}
-	x := &xitem{tag: tag}
+	x := &lexItem{tag: tag}
 	t = t[3:]
 	if k == "S" {
 		x.kind = tree.KStruct
 		for len(t) > 0 && t[0] != ")" {
-			var c *xitem
-			if c, t, err = parseXItemToks(t); err != nil {
+			var c *lexItem
+			if c, t, err = lexParseItemToks(t); err != nil {
 				return nil, nil, err
 			}
 			x.children = append(x.children, c)
@@ -195,7 +198,7 @@ func parseXItemToks(t []string) (*xitem, []string, error) {
 }
 
 // erase forgets the annotations.
-func (x *xitem) erase() *tree.Item {
+func (x *lexItem) erase() *tree.Item {
 	it := &tree.Item{Kind: x.kind, Tag: x.tag, Int: x.i, Big: x.big, Bool: x.b, Data: x.data}
 	for _, c := range x.children {
 		it.Children = append(it.Children, c.erase())
@@ -203,15 +206,15 @@ func (x *xitem) erase() *tree.Item {
 	return it
 }
 
-func xitemOf(it *tree.Item) *xitem {
-	x := &xitem{kind: it.Kind, tag: it.Tag, i: it.Int, big: it.Big, b: it.Bool, data: it.Data}
+func lexItemOf(it *tree.Item) *lexItem {
+	x := &lexItem{kind: it.Kind, tag: it.Tag, i: it.Int, big: it.Big, b: it.Bool, data: it.Data}
 	for _, c := range it.Children {
-		x.children = append(x.children, xitemOf(c))
+		x.children = append(x.children, lexItemOf(c))
 	}
 	return x
 }
 
-func (x *xitem) size() int {
+func (x *lexItem) size() int {
 	n := 1
 	for _, c := range x.children {
 		n += c.size()
@@ -219,7 +222,7 @@ func (x *xitem) size() int {
 	return n
 }
 
-func (x *xitem) walk(f func(*xitem)) {
+func (x *lexItem) walk(f func(*lexItem)) {
 	f(x)
 	for _, c := range x.children {
 		c.walk(f)
@@ -227,9 +230,9 @@ func (x *xitem) walk(f func(*xitem)) {
 }
 
 // annotated: some node is written through Bitmask or through Enum with an explicit enumeration tag.
-func (x *xitem) annotated() bool {
+func (x *lexItem) annotated() bool {
 	res := false
-	x.walk(func(n *xitem) {
+	x.walk(func(n *lexItem) {
 		if n.mask || (n.kind == tree.KEnum && n.ann != 0) {
 			res = true
 		}
@@ -244,7 +247,7 @@ type lexHints struct {
 	mask map[int]int
 }
 
-func newHints() lexHints { return lexHints{map[int]int{}, map[int]int{}} }
+func lexNewHints() lexHints { return lexHints{map[int]int{}, map[int]int{}} }
 
 func (h lexHints) empty() bool { return len(h.enum) == 0 && len(h.mask) == 0 }
 
@@ -279,8 +282,8 @@ func (h lexHints) String() string {
 	return strings.Join(parts, ",")
 }
 
-func parseLexHints(s string) (lexHints, error) {
-	h := newHints()
+func lexParseHints(s string) (lexHints, error) {
+	h := lexNewHints()
 	if s == "-" {
 		return h, nil
 	}
@@ -310,14 +313,14 @@ func parseLexHints(s string) (lexHints, error) {
 	return h, nil
 }
 
-// hintsOf: what a typed caller reading this tree back passes; consistent = the annotations are a function
+// lexHintsOf: what a typed caller reading this tree back passes; consistent = the annotations are a function
 // of (tag, type), i.e. expressible as hints.
-func hintsOf(x *xitem) (lexHints, bool) {
-	h := newHints()
+func lexHintsOf(x *lexItem) (lexHints, bool) {
+	h := lexNewHints()
 	ok := true
 	seenE := map[int]int{}
 	seenI := map[int][2]int{}
-	x.walk(func(n *xitem) {
+	x.walk(func(n *lexItem) {
 		switch n.kind {
 		case tree.KEnum:
 			if p, s := seenE[n.tag]; s && p != n.ann {
@@ -342,10 +345,10 @@ func hintsOf(x *xitem) (lexHints, bool) {
 	return h, ok
 }
 
-// normalizeAnn makes the annotations a function of (tag, type): the first annotation seen for a tag wins.
-func normalizeAnn(x *xitem) {
+// lexNormalizeAnn makes the annotations a function of (tag, type): the first annotation seen for a tag wins.
+func lexNormalizeAnn(x *lexItem) {
 	en, mk := map[int]int{}, map[int]int{}
-	x.walk(func(n *xitem) {
+	x.walk(func(n *lexItem) {
 		if n.kind == tree.KEnum && n.ann != 0 {
 			if _, ok := en[n.tag]; !ok {
 				en[n.tag] = n.ann
@@ -357,7 +360,7 @@ func normalizeAnn(x *xitem) {
 			}
 		}
 	})
-	x.walk(func(n *xitem) {
+	x.walk(func(n *lexItem) {
 		if n.kind == tree.KEnum {
 			n.ann = en[n.tag]
 		}
@@ -372,16 +375,16 @@ func normalizeAnn(x *xitem) {
 
 // ---- driving the real writers / readers through the public Encoder / Decoder methods ----------------------
 
-type xEnc struct{ x *xitem }
+type lexEnc struct{ x *lexItem }
 
-func (e xEnc) EncodeTTLV(enc *ttlv.Encoder) { encodeX(enc, e.x) }
+func (e lexEnc) EncodeTTLV(enc *ttlv.Encoder) { lexEncodeX(enc, e.x) }
 
-func encodeX(e *ttlv.Encoder, x *xitem) {
+func lexEncodeX(e *ttlv.Encoder, x *lexItem) {
 	switch x.kind {
 	case tree.KStruct:
 		e.Struct(x.tag, func(e *ttlv.Encoder) {
 			for _, c := range x.children {
-				encodeX(e, c)
+				lexEncodeX(e, c)
 			}
 		})
 	case tree.KInt:
@@ -415,23 +418,23 @@ func encodeX(e *ttlv.Encoder, x *xitem) {
 	}
 }
 
-// xDec mirrors Value.TagDecodeTTLV / Struct.TagDecodeTTLV, except that per hints it calls
+// lexDec mirrors Value.TagDecodeTTLV / Struct.TagDecodeTTLV, except that per hints it calls
 // d.Enum(enumtag, tag) and d.Bitmask(masktag, tag).
-type xDec struct {
+type lexDec struct {
 	h   lexHints
-	out *xitem
+	out *lexItem
 }
 
-func (d *xDec) DecodeTTLV(dec *ttlv.Decoder) error {
-	out, err := decodeX(dec, dec.Tag(), d.h)
+func (d *lexDec) DecodeTTLV(dec *ttlv.Decoder) error {
+	out, err := lexDecodeX(dec, dec.Tag(), d.h)
 	if err == nil {
 		d.out = out
 	}
 	return err
 }
 
-func decodeX(d *ttlv.Decoder, tag int, h lexHints) (*xitem, error) {
-	x := &xitem{tag: tag}
+func lexDecodeX(d *ttlv.Decoder, tag int, h lexHints) (*lexItem, error) {
+	x := &lexItem{tag: tag}
 	var err error
 	ty := d.Type()
 	switch ty {
@@ -488,7 +491,7 @@ func decodeX(d *ttlv.Decoder, tag int, h lexHints) (*xitem, error) {
 		x.kind = tree.KStruct
 		err = d.Struct(tag, func(d *ttlv.Decoder) error {
 			for d.Tag() != 0 {
-				c, err := decodeX(d, d.Tag(), h)
+				c, err := lexDecodeX(d, d.Tag(), h)
 				if err != nil {
 					return err
 				}
@@ -539,11 +542,11 @@ func lexFail(ctx *Ctx, msg string) {
 func lexDecode(ctx *Ctx, c *lexCodec, doc []byte, h lexHints, line string) lexDecoded {
 	in := append([]byte{}, doc...)
 	type out struct {
-		x   *xitem
+		x   *lexItem
 		err error
 	}
 	r, p := guard("Unmarshal", func() out {
-		d := &xDec{h: h}
+		d := &lexDec{h: h}
 		err := c.unmarshal(in, d)
 		return out{d.out, err}
 	})
@@ -561,7 +564,7 @@ func lexDecode(ctx *Ctx, c *lexCodec, doc []byte, h lexHints, line string) lexDe
 		lexFail(ctx, "decoder returned neither value nor error at "+line)
 	default:
 		res.it = r.x.erase()
-		res.val = xEnc{r.x}
+		res.val = lexEnc{r.x}
 		res.ans = "ok " + res.it.Render()
 	}
 	if !bytes.Equal(in, doc) {
@@ -601,39 +604,32 @@ func lexDecode(ctx *Ctx, c *lexCodec, doc []byte, h lexHints, line string) lexDe
 	return res
 }
 
-func tagsInRange(it *tree.Item) bool {
+func lexTagsInRange(it *tree.Item) bool {
 	if it.Tag < 1 || it.Tag > 0xFFFFFF {
 		return false
 	}
 	for _, c := range it.Children {
-		if !tagsInRange(c) {
+		if !lexTagsInRange(c) {
 			return false
 		}
 	}
 	return true
 }
 
-var _ = kmip.TagAttribute
-var _ = io.EOF
-var _ = math.MaxInt64
-var _ = regexp.MustCompile
-var _ = xml.Header
-var _ = rng.New
-
 // ---- independent parsers: neutral element trees --------------------------------------------------------
 
-type xelem struct {
+type lexElem struct {
 	name     string
 	attrs    [][2]string
-	children []*xelem
+	children []*lexElem
 }
 
-// parseXMLDoc walks the encoding/xml token stream of a document already known to be well-formed.
-func parseXMLDoc(doc []byte) (*xelem, error) {
+// lexParseXMLDoc walks the encoding/xml token stream of a document already known to be well-formed.
+func lexParseXMLDoc(doc []byte) (*lexElem, error) {
 	d := xml.NewDecoder(bytes.NewReader(doc))
 	d.Strict = true
-	var root *xelem
-	var stack []*xelem
+	var root *lexElem
+	var stack []*lexElem
 	for {
 		tok, err := d.Token()
 		if err == io.EOF {
@@ -644,7 +640,7 @@ func parseXMLDoc(doc []byte) (*xelem, error) {
 		}
 		switch t := tok.(type) {
 		case xml.StartElement:
-			e := &xelem{name: t.Name.Local}
+			e := &lexElem{name: t.Name.Local}
 			for _, a := range t.Attr {
 				e.attrs = append(e.attrs, [2]string{a.Name.Local, a.Value})
 			}
@@ -671,7 +667,7 @@ func parseXMLDoc(doc []byte) (*xelem, error) {
 	return root, nil
 }
 
-func (e *xelem) renderTo(sb *strings.Builder) {
+func (e *lexElem) renderTo(sb *strings.Builder) {
 	sb.WriteString("(e ")
 	sb.WriteString(hexUp([]byte(e.name)))
 	for _, a := range e.attrs {
@@ -687,13 +683,13 @@ func (e *xelem) renderTo(sb *strings.Builder) {
 	sb.WriteByte(')')
 }
 
-func (e *xelem) render() string {
+func (e *lexElem) render() string {
 	var sb strings.Builder
 	e.renderTo(&sb)
 	return sb.String()
 }
 
-func (e *xelem) attr(k string) (string, bool) {
+func (e *lexElem) attr(k string) (string, bool) {
 	for _, a := range e.attrs {
 		if a[0] == k {
 			return a[1], true
@@ -702,7 +698,7 @@ func (e *xelem) attr(k string) (string, bool) {
 	return "", false
 }
 
-func (e *xelem) strings(f func(string)) {
+func (e *lexElem) strings(f func(string)) {
 	for _, a := range e.attrs {
 		f(a[1])
 	}
@@ -711,7 +707,7 @@ func (e *xelem) strings(f func(string)) {
 	}
 }
 
-func parseXElemToks(t []string) (*xelem, []string, error) {
+func lexParseElemToks(t []string) (*lexElem, []string, error) {
 	if len(t) < 4 || t[0] != "(" || t[1] != "e" {
 		return nil, nil, fmt.Errorf("syntax")
 	}
@@ -719,7 +715,7 @@ func parseXElemToks(t []string) (*xelem, []string, error) {
 	if err != nil {
 		return nil, nil, err
 	}
-	e := &xelem{name: name}
+	e := &lexElem{name: name}
 	t = t[3:]
 	for len(t) > 0 && t[0] != "(" && t[0] != ")" {
 		k, v, ok := strings.Cut(t[0], "=")
@@ -735,8 +731,8 @@ func parseXElemToks(t []string) (*xelem, []string, error) {
 		t = t[1:]
 	}
 	for len(t) > 0 && t[0] == "(" {
-		var c *xelem
-		if c, t, err = parseXElemToks(t); err != nil {
+		var c *lexElem
+		if c, t, err = lexParseElemToks(t); err != nil {
 			return nil, nil, err
 		}
 		e.children = append(e.children, c)
@@ -748,7 +744,7 @@ func parseXElemToks(t []string) (*xelem, []string, error) {
 }
 
 // serialize writes a real document for a neutral element tree (replay).
-func (e *xelem) serialize(b *bytes.Buffer) {
+func (e *lexElem) serialize(b *bytes.Buffer) {
 	b.WriteString("<" + e.name)
 	for _, a := range e.attrs {
 		b.WriteString(" " + a[0] + `="`)
@@ -766,20 +762,20 @@ func (e *xelem) serialize(b *bytes.Buffer) {
 	b.WriteString("</" + e.name + ">")
 }
 
-// jval: a JSON value as a token walk with UseNumber reports it; objects keep every member in document order.
-type jval struct {
+// lexJVal: a JSON value as a token walk with UseNumber reports it; objects keep every member in document order.
+type lexJVal struct {
 	kind byte // o a s n r T F N
 	keys []string
-	vals []*jval
+	vals []*lexJVal
 	s    string // string value / integer literal
 }
 
 var lexIntLit = regexp.MustCompile(`^-?(0|[1-9][0-9]*)$`)
 
-func parseJSONDoc(doc []byte) (*jval, error) {
+func lexParseJSONDoc(doc []byte) (*lexJVal, error) {
 	d := json.NewDecoder(bytes.NewReader(doc))
 	d.UseNumber()
-	v, err := readJVal(d)
+	v, err := lexReadJVal(d)
 	if err != nil {
 		return nil, err
 	}
@@ -789,7 +785,7 @@ func parseJSONDoc(doc []byte) (*jval, error) {
 	return v, nil
 }
 
-func readJVal(d *json.Decoder) (*jval, error) {
+func lexReadJVal(d *json.Decoder) (*lexJVal, error) {
 	tok, err := d.Token()
 	if err != nil {
 		return nil, err
@@ -798,7 +794,7 @@ func readJVal(d *json.Decoder) (*jval, error) {
 	case json.Delim:
 		switch t {
 		case '{':
-			o := &jval{kind: 'o'}
+			o := &lexJVal{kind: 'o'}
 			for d.More() {
 				kt, err := d.Token()
 				if err != nil {
@@ -808,7 +804,7 @@ func readJVal(d *json.Decoder) (*jval, error) {
 				if !ok {
 					return nil, fmt.Errorf("key")
 				}
-				v, err := readJVal(d)
+				v, err := lexReadJVal(d)
 				if err != nil {
 					return nil, err
 				}
@@ -818,9 +814,9 @@ func readJVal(d *json.Decoder) (*jval, error) {
 			_, err := d.Token()
 			return o, err
 		case '[':
-			a := &jval{kind: 'a'}
+			a := &lexJVal{kind: 'a'}
 			for d.More() {
-				v, err := readJVal(d)
+				v, err := lexReadJVal(d)
 				if err != nil {
 					return nil, err
 				}
@@ -831,28 +827,28 @@ func readJVal(d *json.Decoder) (*jval, error) {
 		}
 		return nil, fmt.Errorf("delimiter")
 	case string:
-		return &jval{kind: 's', s: t}, nil
+		return &lexJVal{kind: 's', s: t}, nil
 	case json.Number:
 		if lexIntLit.MatchString(string(t)) {
 			s := string(t)
 			if s == "-0" {
 				s = "0"
 			}
-			return &jval{kind: 'n', s: s}, nil
+			return &lexJVal{kind: 'n', s: s}, nil
 		}
-		return &jval{kind: 'r'}, nil
+		return &lexJVal{kind: 'r'}, nil
 	case bool:
 		if t {
-			return &jval{kind: 'T'}, nil
+			return &lexJVal{kind: 'T'}, nil
 		}
-		return &jval{kind: 'F'}, nil
+		return &lexJVal{kind: 'F'}, nil
 	case nil:
-		return &jval{kind: 'N'}, nil
+		return &lexJVal{kind: 'N'}, nil
 	}
 	return nil, fmt.Errorf("token %T", tok)
 }
 
-func (j *jval) renderTo(sb *strings.Builder) {
+func (j *lexJVal) renderTo(sb *strings.Builder) {
 	switch j.kind {
 	case 'o':
 		sb.WriteString("(o")
@@ -879,13 +875,13 @@ func (j *jval) renderTo(sb *strings.Builder) {
 	}
 }
 
-func (j *jval) render() string {
+func (j *lexJVal) render() string {
 	var sb strings.Builder
 	j.renderTo(&sb)
 	return sb.String()
 }
 
-func (j *jval) strings(f func(string)) {
+func (j *lexJVal) strings(f func(string)) {
 	if j.kind == 's' {
 		f(j.s)
 	}
@@ -894,7 +890,7 @@ func (j *jval) strings(f func(string)) {
 	}
 }
 
-func parseJValToks(t []string) (*jval, []string, error) {
+func lexParseJValToks(t []string) (*lexJVal, []string, error) {
 	if len(t) == 0 {
 		return nil, nil, fmt.Errorf("empty")
 	}
@@ -902,7 +898,7 @@ func parseJValToks(t []string) (*jval, []string, error) {
 		if len(t) < 3 {
 			return nil, nil, fmt.Errorf("syntax")
 		}
-		j := &jval{kind: t[1][0]}
+		j := &lexJVal{kind: t[1][0]}
 		if t[1] != "o" && t[1] != "a" {
 			return nil, nil, fmt.Errorf("syntax")
 		}
@@ -916,7 +912,7 @@ func parseJValToks(t []string) (*jval, []string, error) {
 				j.keys = append(j.keys, k)
 				t = t[1:]
 			}
-			v, rest, err := parseJValToks(t)
+			v, rest, err := lexParseJValToks(t)
 			if err != nil {
 				return nil, nil, err
 			}
@@ -931,17 +927,17 @@ func parseJValToks(t []string) (*jval, []string, error) {
 	tok := t[0]
 	switch {
 	case tok == "T" || tok == "F" || tok == "N" || tok == "r":
-		return &jval{kind: tok[0]}, t[1:], nil
+		return &lexJVal{kind: tok[0]}, t[1:], nil
 	case strings.HasPrefix(tok, "s"):
 		s, err := lexUnhex(tok[1:])
-		return &jval{kind: 's', s: s}, t[1:], err
+		return &lexJVal{kind: 's', s: s}, t[1:], err
 	case strings.HasPrefix(tok, "n") && lexIntLit.MatchString(tok[1:]):
-		return &jval{kind: 'n', s: tok[1:]}, t[1:], nil
+		return &lexJVal{kind: 'n', s: tok[1:]}, t[1:], nil
 	}
 	return nil, nil, fmt.Errorf("token %q", tok)
 }
 
-func (j *jval) serialize(b *bytes.Buffer) {
+func (j *lexJVal) serialize(b *bytes.Buffer) {
 	switch j.kind {
 	case 'o':
 		b.WriteByte('{')
@@ -980,11 +976,11 @@ func (j *jval) serialize(b *bytes.Buffer) {
 
 // ---- the RFC 3339 side tables (trusted standard-library parameter of the model) ---------------------------
 
-// fmtTable: for every date node, what time.Unix(secs,0).Format(time.RFC3339) gives.
-func fmtTable(x *xitem) string {
+// lexFmtTable: for every date node, what time.Unix(secs,0).Format(time.RFC3339) gives.
+func lexFmtTable(x *lexItem) string {
 	var parts []string
 	seen := map[int64]bool{}
-	x.walk(func(n *xitem) {
+	x.walk(func(n *lexItem) {
 		if n.kind == tree.KDate && !seen[n.i] {
 			seen[n.i] = true
 			parts = append(parts, fmt.Sprintf("%d=%s", n.i, hexUp([]byte(time.Unix(n.i, 0).Format(time.RFC3339)))))
@@ -996,8 +992,8 @@ func fmtTable(x *xitem) string {
 	return strings.Join(parts, ",")
 }
 
-// prsTable: for every string of the document that time.Parse(time.RFC3339, ·) accepts, its Unix seconds.
-func prsTable(each func(func(string))) string {
+// lexPrsTable: for every string of the document that time.Parse(time.RFC3339, ·) accepts, its Unix seconds.
+func lexPrsTable(each func(func(string))) string {
 	var parts []string
 	seen := map[string]bool{}
 	each(func(s string) {
@@ -1027,7 +1023,7 @@ type lexEnv struct {
 	seen      map[string]bool
 }
 
-func newLexEnv() *lexEnv {
+func lexNewEnv() *lexEnv {
 	e := &lexEnv{tagByName: map[string]int{}, enumVals: map[int][]uint32{}, enumNames: map[int][]string{}, maskNames: map[int][]string{}, seen: map[string]bool{}}
 	dump := ttlv.VerifDumpRegistry()
 	for _, t := range dump.TagsByName {
@@ -1061,15 +1057,15 @@ func (e *lexEnv) violate(ctx *Ctx, prop, oracle, key, detail, line string) {
 
 // writerCase: the real writer on x, its output judged and parsed by the independent parser = impl answer.
 // inScope = the tree satisfies the hypotheses of C04 (representable text, dates in years 1..9999, tags in range).
-func (e *lexEnv) writerCase(ctx *Ctx, c *lexCodec, x *xitem, origin string, boundary, inScope bool) []byte {
-	line := "lex." + c.name + "w " + fmtTable(x) + " " + x.render()
+func (e *lexEnv) writerCase(ctx *Ctx, c *lexCodec, x *lexItem, origin string, boundary, inScope bool) []byte {
+	line := "lex." + c.name + "w " + lexFmtTable(x) + " " + x.render()
 	if e.seen[line] {
 		return nil
 	}
 	e.seen[line] = true
 	ctx.current = line
 	nontrivial := x.size() > 1 || x.annotated() || boundary
-	doc, p := guard("Marshal", func() []byte { return append([]byte{}, c.marshal(xEnc{x})...) })
+	doc, p := guard("Marshal", func() []byte { return append([]byte{}, c.marshal(lexEnc{x})...) })
 	if p != "" {
 		e.violate(ctx, "C04", "encoder-total", c.name+":encoder-panic:"+panicKey(p), "encoder panicked: "+p, line)
 		ctx.Add(line, "panic "+panicKey(p), nontrivial, "C04")
@@ -1087,14 +1083,14 @@ func (e *lexEnv) writerCase(ctx *Ctx, c *lexCodec, x *xitem, origin string, boun
 	if !c.wellFormed(doc) {
 		e.violate(ctx, "C04", "well-formed", c.name+":not-well-formed", "independent parser rejects the document "+shortKey(doc), line)
 	} else if c == lexXML {
-		el, err := parseXMLDoc(doc)
+		el, err := lexParseXMLDoc(doc)
 		if err != nil {
 			lexFail(ctx, "independent XML parse: "+err.Error()+" at "+line)
 		} else {
 			impl = "ok " + el.render()
 		}
 	} else {
-		jv, err := parseJSONDoc(doc)
+		jv, err := lexParseJSONDoc(doc)
 		if err != nil {
 			lexFail(ctx, "independent JSON parse: "+err.Error()+" at "+line)
 		} else {
@@ -1106,7 +1102,7 @@ func (e *lexEnv) writerCase(ctx *Ctx, c *lexCodec, x *xitem, origin string, boun
 	if x.annotated() {
 		ctx.Res.Count("w." + c.name + ".annotated")
 	}
-	h, consistent := hintsOf(x)
+	h, consistent := lexHintsOf(x)
 	if !inScope || !consistent {
 		ctx.Res.Count("w." + c.name + ".no-readback")
 		return doc
@@ -1120,7 +1116,7 @@ func (e *lexEnv) writerCase(ctx *Ctx, c *lexCodec, x *xitem, origin string, boun
 		e.violate(ctx, "C04", "binary-identity", c.name+":decode-error:"+errClass(d.err), "the library cannot decode its own document: "+d.err.Error()+" doc="+shortKey(doc), line)
 	default:
 		want := x.erase().Encode()
-		b0, p0 := guard("MarshalTTLV", func() []byte { return ttlv.MarshalTTLV(xEnc{x}) })
+		b0, p0 := guard("MarshalTTLV", func() []byte { return ttlv.MarshalTTLV(lexEnc{x}) })
 		b1, p1 := guard("MarshalTTLV", func() []byte { return ttlv.MarshalTTLV(d.val) })
 		if p0 != "" || p1 != "" || !bytes.Equal(b0, b1) || !bytes.Equal(d.it.Encode(), want) {
 			e.violate(ctx, "C04", "binary-identity", c.name+":binary-differs", "decoded "+d.it.Render()+" from "+shortKey(doc), line)
@@ -1135,7 +1131,7 @@ func (e *lexEnv) writerCase(ctx *Ctx, c *lexCodec, x *xitem, origin string, boun
 
 // ---- reader side -------------------------------------------------------------------------------------------
 
-func (e *lexEnv) elemTag(el *xelem) int {
+func (e *lexEnv) elemTag(el *lexElem) int {
 	raw := el.name
 	if raw == "TTLV" {
 		raw, _ = el.attr("tag")
@@ -1154,7 +1150,7 @@ func (e *lexEnv) elemTag(el *xelem) int {
 }
 
 // nesting: every decoded structure's children come from DIRECT child elements of its element, in order.
-func (e *lexEnv) nesting(it *tree.Item, el *xelem) string {
+func (e *lexEnv) nesting(it *tree.Item, el *lexElem) string {
 	if it.Tag != e.elemTag(el) {
 		return fmt.Sprintf("item with tag 0x%06X decoded at the position of element <%s>", it.Tag, el.name)
 	}
@@ -1193,22 +1189,41 @@ func (e *lexEnv) readerCase(ctx *Ctx, c *lexCodec, doc []byte, h lexHints, origi
 		return
 	}
 	var line string
-	var root *xelem
+	var root *lexElem
+	var each func(func(string))
 	if c == lexXML {
-		el, err := parseXMLDoc(doc)
+		el, err := lexParseXMLDoc(doc)
 		if err != nil {
 			lexFail(ctx, "independent XML parse: "+err.Error()+" on "+shortKey(doc))
 			return
 		}
-		root = el
-		line = "lex.xmlr " + hs + " " + prsTable(el.strings) + " " + el.render()
+		root, each = el, el.strings
+		line = "lex.xmlr " + hs + " " + lexPrsTable(el.strings) + " " + el.render()
 	} else {
-		jv, err := parseJSONDoc(doc)
+		jv, err := lexParseJSONDoc(doc)
 		if err != nil {
 			lexFail(ctx, "independent JSON parse: "+err.Error()+" on "+shortKey(doc))
 			return
 		}
-		line = "lex.jsonr " + hs + " " + prsTable(jv.strings) + " " + jv.render()
+		each = jv.strings
+		line = "lex.jsonr " + hs + " " + lexPrsTable(jv.strings) + " " + jv.render()
+	}
+	if len(h.mask) > 0 {
+		// The registry model's mask text functions are exact on ASCII input only (Model/Registry.lean): Go's
+		// strings.Fields / strings.TrimSpace also split and trim at the non-ASCII white space of unicode.IsSpace.
+		// Such documents are outside the modelled domain: impl-only, the oracles below still run.
+		outside := false
+		each(func(s string) {
+			for _, r := range s {
+				if r >= 0x80 && unicode.IsSpace(r) {
+					outside = true
+				}
+			}
+		})
+		if outside {
+			line = "#lex." + c.name + "r-nonascii-space " + hs + " " + hexUp(doc)
+			ctx.Res.Count("outside-model.unicode-space")
+		}
 	}
 	ctx.current = line
 	d := lexDecode(ctx, c, doc, h, line)
@@ -1232,7 +1247,7 @@ func (e *lexEnv) readerCase(ctx *Ctx, c *lexCodec, doc []byte, h lexHints, origi
 		e.violate(ctx, "C02", "deterministic", c.name+":second-decode-differs", "decoding the same document again gives "+again.ans+show, line)
 	}
 	pre := c.name + ":"
-	if !tagsInRange(d.it) {
+	if !lexTagsInRange(d.it) {
 		pre = c.name + ":tag-out-of-range:"
 		ctx.Res.Count("r." + c.name + ".accepted-tag-out-of-range")
 	}
@@ -1298,7 +1313,7 @@ const (
 	lexTagBatchCount = 0x42000D
 )
 
-func (e *lexEnv) genEnum(r *rng.R) *xitem {
+func (e *lexEnv) genEnum(r *rng.R) *lexItem {
 	pref := []int{lexTagCryptoAlg, kmip.TagObjectType, kmip.TagOperation, kmip.TagResultStatus, kmip.TagState}
 	var et int
 	switch r.Intn(6) {
@@ -1309,7 +1324,7 @@ func (e *lexEnv) genEnum(r *rng.R) *xitem {
 	default:
 		et = rng.Pick(r, pref)
 	}
-	x := &xitem{kind: tree.KEnum}
+	x := &lexItem{kind: tree.KEnum}
 	switch r.Intn(4) {
 	case 0:
 		x.tag, x.ann = et, 0
@@ -1338,7 +1353,7 @@ func (e *lexEnv) genEnum(r *rng.R) *xitem {
 	return x
 }
 
-func (e *lexEnv) genMask(r *rng.R) *xitem {
+func (e *lexEnv) genMask(r *rng.R) *lexItem {
 	var mt int
 	switch r.Intn(5) {
 	case 0:
@@ -1348,7 +1363,7 @@ func (e *lexEnv) genMask(r *rng.R) *xitem {
 	default:
 		mt = lexTagUsageMask
 	}
-	x := &xitem{kind: tree.KInt, mask: true}
+	x := &lexItem{kind: tree.KInt, mask: true}
 	switch r.Intn(4) {
 	case 0:
 		x.tag, x.ann = mt, 0
@@ -1385,7 +1400,7 @@ func (e *lexEnv) genMask(r *rng.R) *xitem {
 	return x
 }
 
-func (e *lexEnv) genAnn(r *rng.R) *xitem {
+func (e *lexEnv) genAnn(r *rng.R) *lexItem {
 	if r.Bool() {
 		return e.genEnum(r)
 	}
@@ -1393,15 +1408,15 @@ func (e *lexEnv) genAnn(r *rng.R) *xitem {
 }
 
 // decorate inserts annotated nodes into structures and annotates existing enumeration / integer nodes.
-func (e *lexEnv) decorate(r *rng.R, x *xitem) {
-	x.walk(func(n *xitem) {
+func (e *lexEnv) decorate(r *rng.R, x *lexItem) {
+	x.walk(func(n *lexItem) {
 		switch n.kind {
 		case tree.KStruct:
 			if r.Chance(1, 2) {
 				for k := 1 + r.Intn(2); k > 0; k-- {
 					pos := r.Intn(len(n.children) + 1)
 					c := e.genAnn(r)
-					n.children = append(n.children[:pos], append([]*xitem{c}, n.children[pos:]...)...)
+					n.children = append(n.children[:pos], append([]*lexItem{c}, n.children[pos:]...)...)
 				}
 			}
 		case tree.KEnum:
@@ -1420,21 +1435,13 @@ func (e *lexEnv) decorate(r *rng.R, x *xitem) {
 }
 
 type lexTree struct {
-	x        *xitem
+	x        *lexItem
 	xmlOK    bool // text representable in XML
 	inScope  bool // hypotheses of C04 hold
 	boundary bool
 }
 
-func bigOf(s string) *big.Int {
-	v, ok := new(big.Int).SetString(s, 0)
-	if !ok {
-		panic("harness: big literal " + s)
-	}
-	return v
-}
-
-func pow2(n uint, d int64) *big.Int {
+func lexPow2(n uint, d int64) *big.Int {
 	return new(big.Int).Add(new(big.Int).Lsh(big.NewInt(1), n), big.NewInt(d))
 }
 
@@ -1446,15 +1453,15 @@ func (e *lexEnv) boundaryTrees() []lexTree {
 		k++
 		return []int{lexTagBatchCount, 0x540001, 0x420094, 0x000001, 0xFFFFFF}[k%5]
 	}
-	add := func(x *xitem, xmlOK, inScope bool) {
+	add := func(x *lexItem, xmlOK, inScope bool) {
 		items = append(items, lexTree{x, xmlOK, inScope, true})
 	}
 	for _, v := range []int64{0, 1, -1, 127, 128, -128, -129, 255, 256, 65535, 65536, math.MaxInt32, math.MinInt32, math.MaxInt32 - 1, math.MinInt32 + 1} {
-		add(&xitem{kind: tree.KInt, tag: tagFor(), i: v}, true, true)
+		add(&lexItem{kind: tree.KInt, tag: tagFor(), i: v}, true, true)
 	}
 	p52 := int64(1) << 52
 	for _, v := range []int64{0, 1, -1, 255, 256, math.MaxInt32, math.MaxInt32 + 1, math.MinInt32, math.MinInt32 - 1, 1 << 32, p52, -p52, p52 - 1, p52 + 1, -p52 + 1, -p52 - 1, 1 << 53, 1<<53 + 1, -(1 << 53), math.MaxInt64, math.MinInt64, math.MaxInt64 - 1, math.MinInt64 + 1, 253402300799} {
-		add(&xitem{kind: tree.KLong, tag: tagFor(), i: v}, true, true)
+		add(&lexItem{kind: tree.KLong, tag: tagFor(), i: v}, true, true)
 	}
 	bigs := []*big.Int{}
 	for _, v := range []int64{0, 1, -1, 127, 128, -127, -128, -129, 255, 256, -255, -256, -257, 32767, 32768, -32768, -32769, p52 - 1, p52, p52 + 1, -p52 + 1, -p52, -p52 - 1, math.MaxInt64, math.MinInt64} {
@@ -1462,17 +1469,17 @@ func (e *lexEnv) boundaryTrees() []lexTree {
 	}
 	for _, n := range []uint{55, 56, 63, 64, 71, 72, 127, 128, 4095, 4096} {
 		for _, d := range []int64{-1, 0, 1} {
-			bigs = append(bigs, pow2(n, d), new(big.Int).Neg(pow2(n, d)))
+			bigs = append(bigs, lexPow2(n, d), new(big.Int).Neg(lexPow2(n, d)))
 		}
 	}
 	for _, v := range bigs {
-		add(&xitem{kind: tree.KBig, tag: tagFor(), big: v}, true, true)
+		add(&lexItem{kind: tree.KBig, tag: tagFor(), big: v}, true, true)
 	}
 	for _, v := range []int64{0, 1, 59, 60, 1 << 31, 1<<31 - 1, 1<<32 - 1, 1<<32 - 2} {
-		add(&xitem{kind: tree.KInterval, tag: tagFor(), i: v}, true, true)
+		add(&lexItem{kind: tree.KInterval, tag: tagFor(), i: v}, true, true)
 	}
 	for _, v := range []int64{0, 1, 2, 0x7FFFFFFF, 0x80000000, 0xFFFFFFFF} {
-		add(&xitem{kind: tree.KEnum, tag: tagFor(), i: v}, true, true)
+		add(&lexItem{kind: tree.KEnum, tag: tagFor(), i: v}, true, true)
 	}
 	// enumerations and masks: registered / unregistered tags and values, tag == enumtag, tag != enumtag, enumtag 0 / -1
 	for _, et := range []int{lexTagCryptoAlg, kmip.TagObjectType, kmip.TagOperation, kmip.TagResultStatus, kmip.TagState, kmip.TagDerivationMethod, 0x540007} {
@@ -1481,12 +1488,12 @@ func (e *lexEnv) boundaryTrees() []lexTree {
 			vals = append(vals, int64(rv[0]), int64(rv[len(rv)-1]), int64(rv[len(rv)-1])+1, int64(rv[len(rv)/2]))
 		}
 		for _, v := range vals {
-			add(&xitem{kind: tree.KEnum, tag: et, ann: 0, i: v}, true, true)
-			add(&xitem{kind: tree.KEnum, tag: et, ann: et, i: v}, true, true)
-			add(&xitem{kind: tree.KEnum, tag: et, ann: -1, i: v}, true, true)
-			add(&xitem{kind: tree.KEnum, tag: lexTagAttrValue, ann: et, i: v}, true, true)
-			add(&xitem{kind: tree.KEnum, tag: 0x540002, ann: et, i: v}, true, true)
-			add(&xitem{kind: tree.KEnum, tag: kmip.TagState, ann: et, i: v}, true, true)
+			add(&lexItem{kind: tree.KEnum, tag: et, ann: 0, i: v}, true, true)
+			add(&lexItem{kind: tree.KEnum, tag: et, ann: et, i: v}, true, true)
+			add(&lexItem{kind: tree.KEnum, tag: et, ann: -1, i: v}, true, true)
+			add(&lexItem{kind: tree.KEnum, tag: lexTagAttrValue, ann: et, i: v}, true, true)
+			add(&lexItem{kind: tree.KEnum, tag: 0x540002, ann: et, i: v}, true, true)
+			add(&lexItem{kind: tree.KEnum, tag: kmip.TagState, ann: et, i: v}, true, true)
 		}
 	}
 	for _, mt := range []int{lexTagUsageMask, lexTagStorage, lexTagAttrValue, 0x540003} {
@@ -1497,49 +1504,49 @@ func (e *lexEnv) boundaryTrees() []lexTree {
 		}
 		for _, v := range vals {
 			sv := int64(int32(v))
-			add(&xitem{kind: tree.KInt, mask: true, tag: mt, ann: 0, i: sv}, true, true)
-			add(&xitem{kind: tree.KInt, mask: true, tag: mt, ann: mt, i: sv}, true, true)
-			add(&xitem{kind: tree.KInt, mask: true, tag: mt, ann: -1, i: sv}, true, true)
-			add(&xitem{kind: tree.KInt, mask: true, tag: lexTagAttrValue, ann: mt, i: sv}, true, true)
-			add(&xitem{kind: tree.KInt, mask: true, tag: 0x540004, ann: mt, i: sv}, true, true)
+			add(&lexItem{kind: tree.KInt, mask: true, tag: mt, ann: 0, i: sv}, true, true)
+			add(&lexItem{kind: tree.KInt, mask: true, tag: mt, ann: mt, i: sv}, true, true)
+			add(&lexItem{kind: tree.KInt, mask: true, tag: mt, ann: -1, i: sv}, true, true)
+			add(&lexItem{kind: tree.KInt, mask: true, tag: lexTagAttrValue, ann: mt, i: sv}, true, true)
+			add(&lexItem{kind: tree.KInt, mask: true, tag: 0x540004, ann: mt, i: sv}, true, true)
 		}
 	}
-	add(&xitem{kind: tree.KBool, tag: tagFor(), b: true}, true, true)
-	add(&xitem{kind: tree.KBool, tag: tagFor(), b: false}, true, true)
+	add(&lexItem{kind: tree.KBool, tag: tagFor(), b: true}, true, true)
+	add(&lexItem{kind: tree.KBool, tag: tagFor(), b: false}, true, true)
 	for _, v := range []int64{-62135596800, -62135596799, -1, 0, 1, 951782400, 1709251199, 4102444800, 253402300798, 253402300799} {
-		add(&xitem{kind: tree.KDate, tag: tagFor(), i: v}, true, true)
+		add(&lexItem{kind: tree.KDate, tag: tagFor(), i: v}, true, true)
 	}
 	for _, v := range []int64{-62135596801, 253402300800, -62167219200, math.MaxInt32 * 1000000} { // outside years 1..9999: correspondence only
-		add(&xitem{kind: tree.KDate, tag: tagFor(), i: v}, true, false)
+		add(&lexItem{kind: tree.KDate, tag: tagFor(), i: v}, true, false)
 	}
 	for _, n := range []int{0, 1, 7, 8, 9, 16, 255, 256, 1000} {
 		b := make([]byte, n)
 		for i := range b {
 			b[i] = byte(i*37 + n)
 		}
-		add(&xitem{kind: tree.KBytes, tag: tagFor(), data: b}, true, true)
+		add(&lexItem{kind: tree.KBytes, tag: tagFor(), data: b}, true, true)
 	}
-	add(&xitem{kind: tree.KBytes, tag: tagFor(), data: []byte{0xAB, 0xCD, 0xEF, 0x00, 0xFF}}, true, true)
+	add(&lexItem{kind: tree.KBytes, tag: tagFor(), data: []byte{0xAB, 0xCD, 0xEF, 0x00, 0xFF}}, true, true)
 	for _, s := range []string{"", "a", "<", ">", "&", `"`, "'", `<>&"'`, "&amp;", "&#65;", "]]>", "<!--x-->", "é", "ß€漢😀", " ", " lead", "trail ", "a  b", "tab\there", "line\nfeed", "cr\rlf\r\n", `back\slash`, `A`, "/", strings.Repeat("x", 300), strings.Repeat("é<", 100), "�", "  ", "0x10", "true", "null"} {
-		add(&xitem{kind: tree.KText, tag: tagFor(), data: []byte(s)}, true, true)
+		add(&lexItem{kind: tree.KText, tag: tagFor(), data: []byte(s)}, true, true)
 	}
 	for _, s := range []string{"\x00", "\x01\x02\x1f", "\x7f", "a\x00b", "\x08\x0c\x0b", "\ufffe\uffff"} { // JSON-representable only
-		add(&xitem{kind: tree.KText, tag: tagFor(), data: []byte(s)}, false, true)
+		add(&lexItem{kind: tree.KText, tag: tagFor(), data: []byte(s)}, false, true)
 	}
 	// tags: unnamed, named, the edges of 24 bits; outside 1..2^24-1 (correspondence only)
 	for _, t := range []int{1, 0x420000, 0x420001, 0x420078, 0x42FFFF, 0x540000, 0x54FFFF, 0xFFFFFE, 0xFFFFFF, 0x0000FF} {
-		add(&xitem{kind: tree.KInt, tag: t, i: 7}, true, true)
-		add(&xitem{kind: tree.KStruct, tag: t}, true, true)
+		add(&lexItem{kind: tree.KInt, tag: t, i: 7}, true, true)
+		add(&lexItem{kind: tree.KStruct, tag: t}, true, true)
 	}
 	for _, t := range []int{0, -1, 0x1000000, 0x7FFFFFFF, -0x420078, math.MinInt32, 1 << 40} {
-		add(&xitem{kind: tree.KInt, tag: t, i: 7}, true, false)
-		add(&xitem{kind: tree.KStruct, tag: t, children: []*xitem{{kind: tree.KBool, tag: t, b: true}}}, true, false)
+		add(&lexItem{kind: tree.KInt, tag: t, i: 7}, true, false)
+		add(&lexItem{kind: tree.KStruct, tag: t, children: []*lexItem{{kind: tree.KBool, tag: t, b: true}}}, true, false)
 	}
 	// structures
-	add(&xitem{kind: tree.KStruct, tag: 0x420078}, true, true)
-	add(&xitem{kind: tree.KStruct, tag: 0x540001, children: []*xitem{{kind: tree.KStruct, tag: 0x540002, children: []*xitem{{kind: tree.KStruct, tag: 0x420077}}}}}, true, true)
+	add(&lexItem{kind: tree.KStruct, tag: 0x420078}, true, true)
+	add(&lexItem{kind: tree.KStruct, tag: 0x540001, children: []*lexItem{{kind: tree.KStruct, tag: 0x540002, children: []*lexItem{{kind: tree.KStruct, tag: 0x420077}}}}}, true, true)
 	// every in-scope XML-representable boundary scalar in one structure, and in chunks of eight
-	var all, chunk []*xitem
+	var all, chunk []*lexItem
 	out := append([]lexTree{}, items...)
 	for _, it := range items {
 		if !it.xmlOK || !it.inScope || it.x.kind == tree.KStruct {
@@ -1548,13 +1555,13 @@ func (e *lexEnv) boundaryTrees() []lexTree {
 		all = append(all, it.x)
 		chunk = append(chunk, it.x)
 		if len(chunk) == 8 {
-			s := &xitem{kind: tree.KStruct, tag: 0x420078, children: chunk}
-			_, ok := hintsOf(s)
+			s := &lexItem{kind: tree.KStruct, tag: 0x420078, children: chunk}
+			_, ok := lexHintsOf(s)
 			out = append(out, lexTree{s, true, ok, true})
 			chunk = nil
 		}
 	}
-	out = append(out, lexTree{&xitem{kind: tree.KStruct, tag: 0x420078, children: all}, true, false, true})
+	out = append(out, lexTree{&lexItem{kind: tree.KStruct, tag: 0x420078, children: all}, true, false, true})
 	return out
 }
 
@@ -1587,7 +1594,7 @@ var lexJSONRaw = []string{
 var lexDateTexts = []string{
 	"2024-01-01T00:00:00Z", "2024-01-01T00:00:00+02:00", "2024-01-01T00:00:00-07:00", "2024-01-01T00:00:00.5Z",
 	"2024-01-01T00:00:00.123456789-07:00", "2024-01-01T00:00:00,5Z", "2024-01-01t00:00:00z", "2024-01-01 00:00:00Z",
-	"0000-01-01T00:00:00Z", "0001-01-01T00:00:00Z", "0001-01-01T00:00:00+01:00", "9999-12-31T23:59:59Z", "9999-12-31T23:59:59-01:00",
+	"0000-01-01T00:00:00Z", "0000-01-01T00:00:00+01:00", "0000-01-01T00:00:00-01:00", "0000-12-31T23:59:59Z", "0001-01-01T00:00:00Z", "0001-01-01T00:00:00+01:00", "9999-12-31T23:59:59Z", "9999-12-31T23:59:59-01:00",
 	"9999-12-31T23:59:59.999999999Z", "10000-01-01T00:00:00Z", "-001-01-01T00:00:00Z", "2024-02-29T12:00:00Z", "2023-02-29T12:00:00Z",
 	"2024-02-30T00:00:00Z", "2024-01-01T24:00:00Z", "2016-12-31T23:59:60Z", "", "2024-01-01", "2024-01-01T00:00:00", "2024-01-01T00:00:00+0200",
 	"2024-01-01T00:00:00Z ", " 2024-01-01T00:00:00Z", "+2024-01-01T00:00:00Z", "2024-1-1T00:00:00Z", "2024-01-01T0:00:00Z",
@@ -1597,11 +1604,11 @@ var lexDateTexts = []string{
 
 func (e *lexEnv) handDocs() []lexDoc {
 	var docs []lexDoc
-	none := newHints()
+	none := lexNewHints()
 	addX := func(doc string, h lexHints) { docs = append(docs, lexDoc{lexXML, doc, h}) }
 	addJ := func(doc string, h lexHints) { docs = append(docs, lexDoc{lexJSON, doc, h}) }
-	hE := func(tag, et int) lexHints { h := newHints(); h.enum[tag] = et; return h }
-	hM := func(tag, mt int) lexHints { h := newHints(); h.mask[tag] = mt; return h }
+	hE := func(tag, et int) lexHints { h := lexNewHints(); h.enum[tag] = et; return h }
+	hM := func(tag, mt int) lexHints { h := lexNewHints(); h.mask[tag] = mt; return h }
 	xmlEl := func(tag, typ string, val *string) string {
 		var sb strings.Builder
 		if strings.HasPrefix(tag, "0x") {
@@ -1697,8 +1704,8 @@ func (e *lexEnv) handDocs() []lexDoc {
 	// masks: names / hex / decimal mixed, separators, unknown names
 	maskX := []string{"Sign", "Sign Verify", "Sign  Verify", " Sign", "Sign ", "Sign\tVerify", "Sign\nVerify", "Sign|Verify", "Sign | Verify", "0x00000001", "0x1 Verify", "1 2", "Sign 2", "3",
 		"-1", "Foo", "sign", "0x80000000", "0xFFFFFFFF", "0x100000000", "2147483648", "2147483647", "-2147483648", "-2147483649", "", " ", "  ", "Sign Sign", "OnLineStorage", "ArchivalStorage OnLineStorage",
-		"0X1", "0x", "Sign Foo", "Foo Sign", "TranslateUnwrap", "0x00080000", "0x00100000", "TranslateUnwrap 0x00100000 0x80000000", "1048576", "Sign,Verify", "Sign Verify", "+1", "0x-1", "Sign 0x", "4294967295"}
-	maskJ := []string{"Sign|Verify", "Sign | Verify", "|Sign", "Sign|", "Sign||Verify", "|", " | ", "||", "Sign Verify", "0x00000001|Verify", "1|2", "Sign|2", " Sign |\tVerify\n", "Sign|Foo", "0x80000000|Sign", "Sign|0x100000000", "-1|Sign", "Sign| |Verify"}
+		"0X1", "0x", "Sign Foo", "Foo Sign", "TranslateUnwrap", "0x00080000", "0x00100000", "TranslateUnwrap 0x00100000 0x80000000", "1048576", "Sign,Verify", "Sign\u00a0Verify", "Sign\u0085Verify", "Sign\u2003Verify", "Sign\u3000Verify", "\u00a0Sign", "Sign\u200bVerify", "Sign\u2028Verify", "+1", "0x-1", "Sign 0x", "4294967295"}
+	maskJ := []string{"Sign|Verify", "Sign | Verify", "|Sign", "Sign|", "Sign||Verify", "|", " | ", "||", "Sign Verify", "0x00000001|Verify", "1|2", "Sign|2", " Sign |\tVerify\n", "Sign|Foo", "0x80000000|Sign", "Sign|0x100000000", "-1|Sign", "Sign| |Verify", "Sign|\u00a0Verify", "\u3000Sign\u0085|Verify", "Sign|\u00a0", "Sign\u00a0|\u2003|Verify", "Sign|\u200bVerify"}
 	type mh struct {
 		tag string
 		h   lexHints
@@ -1829,4 +1836,182 @@ func (e *lexEnv) handDocs() []lexDoc {
 		addJ(d, none)
 	}
 	return docs
+}
+
+// ---- engine -------------------------------------------------------------------------------------------------
+
+func (e *lexEnv) replay(ctx *Ctx) {
+	for _, l := range ctx.Replay {
+		f := strings.SplitN(l, " ", 4)
+		switch f[0] {
+		case "lex.xmlw", "lex.jsonw":
+			if len(f) < 3 {
+				continue
+			}
+			x, err := lexParseItem(strings.Join(f[2:], " "))
+			if err != nil {
+				lexFail(ctx, "replay: "+err.Error()+" in "+l)
+				continue
+			}
+			c := lexXML
+			if f[0] == "lex.jsonw" {
+				c = lexJSON
+			}
+			inScope := lexTagsInRange(x.erase())
+			x.walk(func(n *lexItem) {
+				if n.kind == tree.KDate && (n.i < -62135596800 || n.i > 253402300799) {
+					inScope = false
+				}
+			})
+			if doc := e.writerCase(ctx, c, x, "replay", true, inScope); doc != nil {
+				if h, ok := lexHintsOf(x); ok {
+					e.readerCase(ctx, c, doc, h, "replay")
+				}
+			}
+		case "lex.xmlr", "lex.jsonr":
+			if len(f) != 4 {
+				continue
+			}
+			h, err := lexParseHints(f[1])
+			if err != nil {
+				lexFail(ctx, "replay: "+err.Error()+" in "+l)
+				continue
+			}
+			var buf bytes.Buffer
+			if f[0] == "lex.xmlr" {
+				el, rest, err := lexParseElemToks(lexTokens(f[3]))
+				if err != nil || len(rest) != 0 {
+					lexFail(ctx, "replay: bad element tree in "+l)
+					continue
+				}
+				el.serialize(&buf)
+				e.readerCase(ctx, lexXML, buf.Bytes(), h, "replay")
+			} else {
+				jv, rest, err := lexParseJValToks(lexTokens(f[3]))
+				if err != nil || len(rest) != 0 {
+					lexFail(ctx, "replay: bad JSON value in "+l)
+					continue
+				}
+				jv.serialize(&buf)
+				e.readerCase(ctx, lexJSON, buf.Bytes(), h, "replay")
+			}
+		case "#lex.xmlr-raw", "#lex.jsonr-raw", "#lex.xmlr-nonascii-space", "#lex.jsonr-nonascii-space":
+			if len(f) < 3 {
+				continue
+			}
+			h, err := lexParseHints(f[1])
+			doc, err2 := lexUnhex(f[2])
+			if err != nil || err2 != nil {
+				lexFail(ctx, "replay: bad raw line "+l)
+				continue
+			}
+			c := lexXML
+			if strings.HasPrefix(f[0], "#lex.jsonr") {
+				c = lexJSON
+			}
+			e.readerCase(ctx, c, []byte(doc), h, "replay")
+		}
+	}
+}
+
+// oneTree: writer lines for both encodings, then the documents as reader input (typed hints and generic),
+// then (mutate) their lexical mutations.
+func (e *lexEnv) oneTree(ctx *Ctx, t lexTree, origin string, mutate bool) {
+	r := ctx.R
+	codecs := []*lexCodec{lexJSON}
+	if t.xmlOK {
+		codecs = []*lexCodec{lexXML, lexJSON}
+	}
+	h, consistent := lexHintsOf(t.x)
+	for _, c := range codecs {
+		doc := e.writerCase(ctx, c, t.x, origin, t.boundary, t.inScope)
+		if doc == nil {
+			continue
+		}
+		if consistent {
+			e.readerCase(ctx, c, doc, h, "own")
+		}
+		if !consistent || !h.empty() {
+			e.readerCase(ctx, c, doc, lexNewHints(), "own-generic")
+		}
+		if !mutate {
+			continue
+		}
+		mh := h
+		if !consistent || r.Chance(1, 4) {
+			mh = lexNewHints()
+		}
+		var muts [][]byte
+		if c == lexXML {
+			muts = mutateXML(r, doc)
+		} else {
+			muts = mutateJSON(r, doc)
+		}
+		for _, m := range muts {
+			e.readerCase(ctx, c, m, mh, "mutated")
+		}
+	}
+}
+
+func lexRun(ctx *Ctx) {
+	e := lexNewEnv()
+	if len(e.enumNames[lexTagCryptoAlg]) < 2 || len(e.maskNames[lexTagUsageMask]) == 0 {
+		ctx.Res.Fail("lex: the registry lacks CryptographicAlgorithm / CryptographicUsageMask")
+		return
+	}
+	for _, n := range []string{"RequestMessage", "RequestHeader", "BatchItem", "RequestPayload", "TemplateAttribute", "Attribute", "BatchCount", "MaximumResponseSize", "MaximumItems", "IterationCount", "UniqueIdentifier", "AttributeValue", "State", "CryptographicAlgorithm", "CryptographicUsageMask", "StorageStatusMask"} {
+		if e.tagByName[n] == 0 {
+			ctx.Res.Fail("lex: tag name " + n + " used by the hand-written documents is not registered")
+		}
+	}
+	if len(ctx.Replay) > 0 {
+		e.replay(ctx)
+		return
+	}
+	r := ctx.R
+	// (1) boundary values of every scalar kind
+	for _, t := range e.boundaryTrees() {
+		e.oneTree(ctx, t, "boundary", false)
+	}
+	// (2) hand-enumerated alternative lexical forms and element structures
+	for _, d := range e.handDocs() {
+		e.readerCase(ctx, d.c, []byte(d.doc), d.h, "hand")
+	}
+	// (3) generated trees
+	n := ctx.N(600, 12000)
+	for i := 0; i < n; i++ {
+		mode := 2
+		if i%4 == 3 {
+			mode = 1 // control characters: JSON only
+		}
+		var opts tree.GenOpts
+		switch {
+		case i%25 == 24:
+			opts = tree.GenOpts{MaxDepth: 10, MaxChildren: 3, MaxData: 200, MaxBigBits: 4096, TextMode: mode}
+		case i%5 == 4:
+			opts = tree.GenOpts{MaxDepth: 2, MaxChildren: 14, MaxData: 24, MaxBigBits: 130, TextMode: mode}
+		default:
+			opts = tree.GenOpts{MaxDepth: 4, MaxChildren: 5, MaxData: 40, MaxBigBits: 200, TextMode: mode}
+		}
+		x := lexItemOf(tree.Gen(r, opts, 0))
+		origin := "gen"
+		switch i % 3 {
+		case 1:
+			e.decorate(r, x)
+			lexNormalizeAnn(x)
+			origin = "gen-annotated"
+		case 2:
+			if i%6 == 2 {
+				e.decorate(r, x) // annotations that differ between nodes of one tag (AttributeValue): writer side only
+				origin = "gen-annotated-free"
+			} else if i%12 == 5 {
+				x = e.genAnn(r) // an annotated node at top level
+				origin = "gen-annotated-top"
+			}
+		}
+		e.oneTree(ctx, lexTree{x, mode == 2, true, false}, origin, i%2 == 0)
+	}
+	if lexFailCount > 20 {
+		ctx.Res.Fail(fmt.Sprintf("lex: %d harness errors in total", lexFailCount))
+	}
 }
